@@ -126,10 +126,10 @@ N2S = Fn(DH, r'^NumberToDOMString\(\s*double\s+theValue,', 'NumberToDOMString_do
          'void* NumberToDOMString_double(double theValue, void* theResult)',
          head_expect=r'NumberToDOMString\( double theValue, XalanDOMString& theResult\)$',
          rules=COMMON_RULES + [
-             (r'theResult\.append\(\s*theNaNString,[^;]*;', 'xv_out_literal(theResult, XV_OUT_NAN);', 1),
-             (r'theResult\.append\(\s*thePositiveInfinityString,[^;]*;', 'xv_out_literal(theResult, XV_OUT_PINF);', 1),
-             (r'theResult\.append\(\s*theNegativeInfinityString,[^;]*;', 'xv_out_literal(theResult, XV_OUT_NINF);', 1),
-             (r'theResult\.append\(\s*theZeroString,[^;]*;', 'xv_out_literal(theResult, XV_OUT_ZERO);', 1),
+             (r'theResult\.append\(\s*theNaNString,[^;]*;', 'xv_out_literal(theResult, XV_OUT_NAN);', (0, 4)),
+             (r'theResult\.append\(\s*thePositiveInfinityString,[^;]*;', 'xv_out_literal(theResult, XV_OUT_PINF);', (0, 4)),
+             (r'theResult\.append\(\s*theNegativeInfinityString,[^;]*;', 'xv_out_literal(theResult, XV_OUT_NINF);', (0, 4)),
+             (r'theResult\.append\(\s*theZeroString,[^;]*;', 'xv_out_literal(theResult, XV_OUT_ZERO);', (0, 4)),
              (r'NumberToDOMString\(\(\(XMLInt64\)\(theValue\)\), theResult\)', 'xv_out_int64(((XMLInt64)(theValue)), theResult)', 1),
              (r'theResult\.reserve\(theResult\.length\(\) \+ theCharsWritten\);', 'xv_reserve(theResult, theCharsWritten);', 1),
              (r'TranscodeNumber\(\s*theBuffer,\s*theBuffer \+ theCharsWritten,\s*back_inserter\(theResult\)\);',
@@ -143,10 +143,10 @@ N2C = Fn(DH, r'^DOMStringHelper::NumberToCharacters\(\s*double\s+theValue,', 'Nu
          'void NumberToCharacters_double(double theValue, void* formatterListener, MemberFunctionPtr function)',
          head_expect=r'DOMStringHelper::NumberToCharacters\( double theValue, FormatterListener& formatterListener, MemberFunctionPtr function\)$',
          rules=COMMON_RULES + [
-             (r'\(formatterListener\.\*function\)\(\s*theNaNString,[^;]*;', 'xv_out_literal(formatterListener, XV_OUT_NAN);', 1),
-             (r'\(formatterListener\.\*function\)\(\s*thePositiveInfinityString,[^;]*;', 'xv_out_literal(formatterListener, XV_OUT_PINF);', 1),
-             (r'\(formatterListener\.\*function\)\(\s*theNegativeInfinityString,[^;]*;', 'xv_out_literal(formatterListener, XV_OUT_NINF);', 1),
-             (r'\(formatterListener\.\*function\)\(\s*theZeroString,[^;]*;', 'xv_out_literal(formatterListener, XV_OUT_ZERO);', 1),
+             (r'\(formatterListener\.\*function\)\(\s*theNaNString,[^;]*;', 'xv_out_literal(formatterListener, XV_OUT_NAN);', (0, 4)),
+             (r'\(formatterListener\.\*function\)\(\s*thePositiveInfinityString,[^;]*;', 'xv_out_literal(formatterListener, XV_OUT_PINF);', (0, 4)),
+             (r'\(formatterListener\.\*function\)\(\s*theNegativeInfinityString,[^;]*;', 'xv_out_literal(formatterListener, XV_OUT_NINF);', (0, 4)),
+             (r'\(formatterListener\.\*function\)\(\s*theZeroString,[^;]*;', 'xv_out_literal(formatterListener, XV_OUT_ZERO);', (0, 4)),
              (r'NumberToCharacters\(\(\(XMLInt64\)\(theValue\)\), formatterListener, function\)', 'xv_out_int64(((XMLInt64)(theValue)), formatterListener)', 1),
              (r'XalanDOMChar\s+theResult\[(\w+) \+ 1\];', r'XalanDOMChar theResult[\1 + 1];', 1),
              (r'TranscodeNumber\(\s*theBuffer,\s*theBuffer \+ theCharsWritten,\s*&theResult\[0\]\);',
@@ -180,7 +180,7 @@ REPL = ['xv_sprintf_f', 'xv_atof_buf', 'xv_isdigit_at', 'xv_out_literal', 'xv_ou
 
 UNIT = Unit(
     name='c18_num2str',
-    props=['C18', 'C03'],
+    props=['C18', 'C03', 'C11'],
     blocks=[CONSTS, PRINTF],
     functions=[N2S, N2C],
     template=TEMPLATE,
